@@ -391,6 +391,21 @@ func implInlines(c Case) ImplResult {
 		}
 		segs = append(segs, inlSeg(s))
 	}
+	// hypothesis WF0 of the totality theorems (GM.Props.Inlines.parseBlock_fuel_suffices_*): the lines are non-empty,
+	// inside the source, increasing, and carry no virtual padding
+	var assume []OracleFail
+	prevStop := 0
+	for i := 0; i < lines.Len(); i++ {
+		s := lines.At(i)
+		if !(prevStop <= s.Start && s.Start < s.Stop && s.Stop <= len(src) && s.Padding == 0) {
+			assume = append(assume, OracleFail{"C01", "assumption:lines-not-WF0", fmt.Sprintf("line %d = %s after stop %d, source length %d", i, inlSeg(s), prevStop, len(src))})
+			break
+		}
+		prevStop = s.Stop
+	}
+	if lines.Len() == 0 {
+		assume = append(assume, OracleFail{"C01", "assumption:lines-not-WF0", "paragraph without lines"})
+	}
 	segArg := "-"
 	if len(segs) > 0 {
 		segArg = strings.Join(segs, ",")
@@ -445,7 +460,7 @@ func implInlines(c Case) ImplResult {
 	sb.WriteString("ok [")
 	w.children(p, &sb, false)
 	sb.WriteString("]")
-	res := ImplResult{Out: sb.String(), Fails: w.fails, Stats: []string{"compared_one_paragraph"}}
+	res := ImplResult{Out: sb.String(), Fails: append(w.fails, assume...), Stats: []string{"compared_one_paragraph"}}
 	res.ModelLine = "inlines parse " + c.Args[0] + " " + segArg + " " + refArg + " " + ucArg
 	if w.nontxt {
 		res.Key = w.shape.String()
